@@ -90,6 +90,30 @@ def check_case(case):
         observed_out = retro.multiset(out, out_obs_rows, with_plate=True, with_mask=True)
         require(observed_out == observed_in, name + ".observed_pass_through", lambda: "observed part changed: lost %r, gained %r" % (list((observed_in - observed_out).elements())[:3], list((observed_out - observed_in).elements())[:3]))
 
+        # the same Screen object is prepared again after a plate has been revealed in place (set_observed)
+        un_plates = sorted({str(screen.plate_names[i]) for i in range(screen.size) if not bool(screen.observation_mask[i])})
+        if len(un_plates) >= 2:
+            sel = np.asarray(screen.plate_names) == un_plates[case["seed"] % len(un_plates)]
+            screen.set_observed(sel, np.linspace(0.3, 0.6, int(sel.sum())))
+            snap2 = retro.snapshot(screen)
+            full_in2 = retro.multiset(screen)
+            obs_rows2 = [i for i in range(screen.size) if bool(screen.observation_mask[i])]
+            observed_in2 = retro.multiset(screen, obs_rows2, with_plate=True, with_mask=True)
+            try:
+                out2 = retro.apply_operator(op, screen, np.random.default_rng(case["seed"] + 1))
+            except Exception as e:
+                labels.append("raised:%s:%s" % (name, type(e).__name__))
+                continue
+            counts["operator_runs_after_inplace_reveal"] += 1
+            require(retro.unchanged(screen, snap2), name + ".second_pass.input_untouched", "the input screen object was modified")
+            full_out2 = retro.multiset(out2)
+            if name in retro.GENERATORS:
+                require(full_out2 == full_in2, name + ".second_pass.conserves_all", lambda: "after an in-place reveal the same screen is prepared again and experiments change: lost %r, invented/duplicated %r" % (list((full_in2 - full_out2).elements())[:3], list((full_out2 - full_in2).elements())[:3]))
+            else:
+                require(_included(full_out2, full_in2), name + ".second_pass.subcollection", lambda: "after an in-place reveal the same screen is smoothed again and the output holds experiments that are not (or more often than) input experiments: %r" % (list((full_out2 - full_in2).elements())[:3],))
+            o2 = retro.multiset(out2, [i for i in range(out2.size) if bool(out2.observation_mask[i])], with_plate=True, with_mask=True)
+            require(o2 == observed_in2, name + ".second_pass.observed_pass_through", "after an in-place reveal the observed part does not pass through unchanged")
+
     # ---- hold-out splits
     for hname, f in (("plate_balanced", create_plate_balanced_holdout_set_among_masked_plates), ("random", create_random_holdout)):
         screen = S.build_screen(sc)
